@@ -124,7 +124,7 @@ def float_model_spec(rnd, allow=("sep", "gru", "bidir", "leaky", "gap")):
       elif t == "bidir":
         seq = bool(rnd.randint(0, 1))
         add("Bidirectional", "bidir", {"inner": rnd.choice(["LSTM", "SimpleRNN"]), "units": rnd.randint(1, 3),
-                                        "return_sequences": seq, "use_bias": ub})
+                                        "return_sequences": seq, "use_bias": ub, "backward": rnd.random() < 0.4})
         if not seq:
           rank = 2
       elif t == "act":
@@ -218,8 +218,11 @@ def build(spec, qkeras_mod=None):
     t = l["t"]
     if t == "Bidirectional":
       inner = getattr(L, kw.pop("inner"))
-      layer = L.Bidirectional(inner(kw.pop("units"), return_sequences=kw.pop("return_sequences"), use_bias=kw.pop("use_bias"),
-                                    name=l["name"] + "_inner"), name=l["name"])
+      units, seq, ub = kw.pop("units"), kw.pop("return_sequences"), kw.pop("use_bias")
+      extra = {}
+      if kw.pop("backward", False):     # an explicit backward layer with its own name
+        extra["backward_layer"] = inner(units, return_sequences=seq, use_bias=ub, go_backwards=True, name=l["name"] + "_custom_bwd")
+      layer = L.Bidirectional(inner(units, return_sequences=seq, use_bias=ub, name=l["name"] + "_inner"), name=l["name"], **extra)
     elif t.startswith("Q") and qkeras_mod is not None and hasattr(qkeras_mod, t):
       for k, v in list(kw.items()):
         if isinstance(v, list) and k in ("kernel_size", "pool_size", "strides"):
@@ -250,6 +253,7 @@ WQD = [Qd("quantized_bits", bits=4, integer=0, symmetric=1, alpha=1.0),
        Qd("quantized_bits", bits=4, integer=0, symmetric=1, qnoise_factor=0.5),
        Qd("quantized_bits", bits=3, integer=1, symmetric=0, keep_negative=False, alpha=1.0),
        Qd("quantized_po2", bits=4, max_value=2.0), Qd("quantized_po2", bits=4, log2_rounding="floor"),
+       Qd("quantized_po2", bits=4, max_value=1),      # an integer-typed option value (prints as 1, not 1.0)
        Qd("ternary", alpha="auto"), Qd("ternary", alpha=1.0, threshold=0.7), Qd("ternary", alpha="auto_po2", number_of_unrolls=2),
        Qd("binary", alpha="auto", scale_axis=0), Qd("binary", use_01=True, alpha=1.0), Qd("binary", alpha="auto_po2", min_po2_exponent=-2),
        Qd("quantized_linear", bits=4, integer=0, alpha="auto_po2"), Qd("quantized_linear", bits=5, integer=1, symmetric=0),
